@@ -282,7 +282,50 @@ def r11_6(ctx: Ctx) -> None:
     ctx.ok("R11.6", f"{n_fn} functions that hold a caller-supplied `filters` list: none mutates it or its elements")
 
 
+def r11_7(ctx: Ctx, rule: str = "R11.7") -> None:
+    """(a) 'without the password nothing is delivered': the missing password is noticed before any output is touched.  The decoders raise
+    PasswordRequired only when they are built, which is after the first member's file has been opened for writing (a file under the member's
+    name is created, an existing one truncated); _extract therefore raises PasswordRequired itself, on a path that dominates the worker
+    call and every directory/file creation.  (b) 'in no case are bytes delivered that differ from the original': on the disk-output arm of
+    Worker._extract_single the file is removed again before CrcError is raised (with Copy+7zAES / 7zAES alone a wrong key is only noticed
+    by the CRC, after the whole member has been written)."""
+    ex = shared.szf(ctx, "_extract")
+    cfg = cfg_of(ex.node)
+    raises = [r for r in walk(ex.node) if isinstance(r, ast.Raise) and r.exc is not None and "PasswordRequired" in norm(r.exc)]
+    wcalls = [c for c in q.calls(ex) if "py7zr:Worker.extract" in shared.targets_of(ctx, ex, c)]
+    ok = False
+    for r in raises:
+        facts = q.facts_at(ex, r)
+        asks = any(isinstance(cd, ast.Call) and attr_tail(cd) == "needs_password" and pol for cd, pol in facts) and \
+            any((nt := q.is_none_test(cd)) is not None and "password" in norm(nt[0]) and nt[1] == pol for cd, pol in facts)
+        rn = q.node_for(ex, r)
+        before_all = all(not cfg.reaches(q.node_for(ex, w), rn) for w in wcalls) and all(
+            not cfg.reaches(q.node_for(ex, c), rn) for c in q.calls(ex) if attr_tail(c) in ("mkdir", "register_filelike", "get_sanitized_output_path"))
+        ok = ok or (asks and before_all)
+    ctx.check(ok, rule, ex, ex.node, "_extract asks for the password before any output is touched",
+              "extraction of an encrypted archive without a password raises PasswordRequired only when the first decoder is built - after the first member's file was opened "
+              "for writing: an empty file appears under the member's name and a correct copy that was already there is truncated", construct="password before output")
+    es = ctx.prog.func("py7zr", "Worker._extract_single")
+    ecfg = cfg_of(es.node)
+    n = 0
+    for r in [x for x in walk(es.node) if isinstance(x, ast.Raise) and x.exc is not None and "CrcError" in norm(x.exc)]:
+        rn = q.node_for(es, r)
+        # the arm that wrote to a real file: an `open(mode="wb")` of the output precedes the raise and no BytesIO buffer is the target
+        opens = [c for c in q.calls(es) if attr_tail(c) == "open" and any(k.arg == "mode" and isinstance(k.value, ast.Constant) and "w" in str(k.value.value) for k in c.keywords)
+                 and ecfg.reaches(q.node_for(es, c), rn) and ecfg.dominates(q.node_for(es, c), rn)]
+        if not opens:
+            continue
+        n += 1
+        removed = any(attr_tail(c) in ("unlink", "remove") and ecfg.reaches(q.node_for(es, c), rn) and not ecfg.reaches(rn, q.node_for(es, c))
+                      and any(pol and isinstance(cd, ast.Compare) and "crc" in norm(cd).lower() for cd, pol in q.facts_at(es, c)) for c in q.calls(es))
+        ctx.check(removed, rule, es, r, "wrong content is removed from disk before CrcError is raised",
+                  "Worker._extract_single writes the member straight to its destination and raises CrcError afterwards, leaving the wrong bytes (wrong password with "
+                  "Copy+7zAES / 7zAES alone, or damage) under the member's name", construct="wrong bytes left on disk")
+    ctx.floor(rule, n, 1, "CrcError raises behind a disk write in _extract_single")
+
+
 def run(ctx: Ctx) -> None:
+    r11_7(ctx)
     r11_6(ctx)
     shared.exits_do_not_swallow(ctx, "R11.5")
     r11_1(ctx)
